@@ -163,6 +163,8 @@ package keeper
 //@   modifies store(ctx, "assets"), trace, heap["x/assets/types.OperatorAssetInfo"]
 //@   before[C04.iafo.row] #opFunc requires *arg_state == unm["x/assets/types.OperatorAssetInfo"](res_Value_0)
 //@   ensures[C04.iafo.readonly] !isUpdate ==> state(ctx) == old(state(ctx))
+// ... and the walk ends only when the rows are used up (or with an error): a row the filter leaves out does not end it.
+//@   ensures[C05.iafo.all,C04.iafo.all] err == nil ==> defined(res_Valid_0) && !res_Valid_0
 //@ loop #1
 //@   invariant !isUpdate ==> state(ctx) == old(state(ctx))
 //@   invariant traceN() >= old(traceN())
